@@ -1,19 +1,38 @@
 # C16 — VarOpt samples conserve total weight and keep heavy items exactly
+#
+# Requires fixes/16_deserialize_m.patch and fixes/16_union_pseudo_exact_tau.patch in /repo (the model is the REPAIRED
+# behaviour; coq/Regression_varopt.v keeps the old behaviour as refuted theorems).
+#
+# Mutation log (scratch worktree /tmp/wt_varopt with both fixes applied, VERIF_SEED=1, quick tier); each is reported as VIOLATION:
+#   M1  downsample_candidate_set does not store total_wt_r_ = wt_cands                         (DESIGN section 9 row C16)
+#   M2  choose_delete_slot, m_ == 1: "keep the M item" comparison flipped (branch taken in the wrong case)
+#   M3  update: condition2 weight < hypothetical_tau flipped to >                              (DESIGN: light/heavy flipped)
+#   M4  decrease_k_by_1 re-inserts the pulled item with half its weight                        (DESIGN: pulled weight dropped)
+#   M5  update_warmup_phase does not count the mark (num_marks_in_h_)                          (DESIGN: marks not counted)
+#   M6  var_opt_union::resolve_tau: sketch_tau > outer_tau flipped to <
+#   M7  grow_candidate_set loop: next_wt * num_cands < next_tot_wt  ->  <=                      (off by one at equality)
+#   MUTATION_LOG_REST
+# Harmless rewrites, not reported (exit 0):
+#   HARMLESS_LOG
 import struct
 from fractions import Fraction
 
 PROP = "C16"
 READY = False
-COQ_PROPS = ['Properties_C16']
-RULE = ('operation scripts over several var_opt_sketch<int64_t> registers with every random choice of the library supplied through '
-        'the DATASKETCHES_VERIF hook and replayed by the model: k in 1..32 (refused k=0 and k>2^31-2), all four resize factors, '
-        'weight patterns uniform / small integers / 2^i spread / heavy tail / increasing / decreasing / one giant / dyadic fractions '
-        '(sums exact in binary64) and a stream of cases with arbitrary doubles (tenths, uniform, log-normal, near-equal), invalid '
-        'weights (negative, NaN, inf) and zero weights, scripted draws (0.0, tiny, ~1) to steer choose_delete_slot, dumps after '
-        'every few updates, subset-sum queries with five predicates, serialize/deserialize round trips (bytes, stream, header) '
-        'into another register followed by further updates, copies, resets; non-trivial = some register leaves the warm-up phase '
-        '(n > k) or a round trip / union happens')
-TRUSTED = ['random choices are taken from the hook log (E lines) instead of modelling mt19937_64/uniform distributions',
+COQ_PROPS = ['Properties_C16', 'Regression_varopt']
+RULE = ('operation scripts over several var_opt_sketch<int64_t> registers and a var_opt_union<int64_t> with every random choice of '
+        'the library supplied through the DATASKETCHES_VERIF hook and replayed by the model: k in 1..32 (refused k=0 and k>2^31-2), '
+        'all four resize factors, weight patterns uniform / small integers / 2^i spread / heavy tail / increasing / decreasing / one '
+        'giant / dyadic fractions (sums exact in binary64) and a stream of cases with arbitrary doubles (tenths, uniform, log-normal, '
+        'near-equal), invalid weights (negative, NaN, inf) and zero weights, scripted draws (0.0, tiny, ~1) to steer '
+        'choose_delete_slot, dumps after every few updates, subset-sum queries with five predicates, serialize/deserialize round '
+        'trips (bytes, stream, header) into another register followed by further updates, copies, resets; unions (max_k from 1 to '
+        'more than all samples together) of sketches with different k and fill state (empty, under-full, exactly full, estimation '
+        'mode, deserialized copies, the same sketch twice, equal taus), union dumps, intermediate and final get_result, updates '
+        'and a round trip of the result, union reset and reuse; non-trivial = some register leaves the warm-up phase (n > k) or a '
+        'round trip / union happens')
+TRUSTED = ['Coq kernel; the hand-written model coq/VarOptDefs.v is validated only by the correspondence runs (bit-exact replay)',
+           'random choices are taken from the hook log (E lines) instead of modelling mt19937_64/uniform distributions',
            'binary64 +,*,/ and comparisons of Coq PrimFloat (= OCaml floats after extraction) agree with the C++ compiled with '
            '-ffp-contract=off on x86-64 SSE2; FloatBits.v converts bit patterns',
            'theorems are over exact rational arithmetic (Q instance of the model); the binary64 instance of the same model text is '
@@ -23,7 +42,14 @@ ASSUMPTIONS = ['lower/upper bounds of estimate_subset_sum go through libm (sqrt/
                'for arbitrary (non-dyadic) doubles the conservation law is checked within 1e-9 relative and the heavy-item '
                'clause only for weights above tau*(1+1e-12); exact for dyadic inputs',
                'unbiasedness over the sampling randomness is statistical and not claimed',
-               'resize factor and array capacities are not modelled (exercised under ASan only)']
+               'resize factor and array capacities are not modelled (exercised under ASan only)',
+               'serialization is modelled as the validity checks of serialize/deserialize plus the regions handed to the private '
+               'constructor, not as bytes; the byte layout is exercised by the harness round trips only',
+               '"at most the smallest effective k items" is read as: result k <= the union\'s max_k and at most k samples; the '
+               'library by design returns more samples than the smallest input k (k=4 and k=8 inputs give k=7)',
+               'union results: "get_result always returns" and the heavy-item clause (every input heavier than the result\'s tau '
+               'is kept) are not proved (only compared and evaluated by the oracle); conservation of n and weight, k <= max_k, '
+               'samples from the input and exact H weights are proved for whatever get_result returns']
 
 def d2b(x):
     return struct.unpack('<Q', struct.pack('<d', x))[0]
@@ -149,6 +175,14 @@ def union_phase(rng, ops, tags, srcs, klist, pat, st, universe, u):
             ops.append([14, u])
         if rng.random() < 0.3:
             ops.append([12, u, 200]); ops.append([3, 200]); tags.add('union-intermediate-result')
+    if rng.random() < 0.35:
+        # serialize/deserialize the union into union u+10; both must go on identically
+        tags.add('union-serde')
+        ops.append([15, u, u + 10, rng.randrange(3)]); ops.append([14, u + 10])
+        ops.append([12, u + 10, 203]); ops.append([3, 203])
+        if rng.random() < 0.5:
+            ops.append([11, u + 10, rng.choice(srcs)]); ops.append([14, u + 10])
+            ops.append([12, u + 10, 203]); ops.append([3, 203]); ops.append([4, 203, 0, 0])
     ops.append([14, u]); ops.append([12, u, 200]); ops.append([3, 200])
     for p in PREDS:
         ops.append([4, 200, p[0], p[1]])
@@ -392,6 +426,11 @@ def oracle(case, irecs, mrecs):
                 else:
                     bad('union_result_threw', 'var_opt_union::get_result() threw (union n=%d, max_k=%d, all inputs in exact mode)' %
                         (u['cnt'], u['maxk']), i)
+        elif c == 15 and len(op) >= 3 and op[1] in ureg:
+            if R == [1]:
+                ureg[op[2]] = dict(ureg[op[1]])
+            elif not ureg[op[1]]['taint']:
+                bad('union_roundtrip_refused', 'var_opt_union serialize/deserialize round trip threw (union n=%d)' % ureg[op[1]]['cnt'], i)
         elif c == 13 and op[1] in ureg and R == [1]:
             ureg[op[1]] = dict(maxk=ureg[op[1]]['maxk'], cnt=0, taint=False, est=False)
         elif c == 14 and op[1] in ureg and S and R != [-1] and not ureg[op[1]]['taint']:
@@ -413,6 +452,38 @@ FAMILIES = [dict(name='varopt', harness='drv_varopt.cpp', extract='Extract_varop
                  ocaml_flags='-rectypes -thread -package coq-core.kernel -linkpkg', cxx_flags='-ffp-contract=off')]
 
 MANIFEST = dict(
-    level_text='(filled in when READY)',
-    level_note='',
+    level_text=('Theorems (coq/Properties_C16.v, 21 statements, axiom-free, proofs in VarOptProofs/VarOptTheorems/VarOptUnion/VarOptMarks.v) about the '
+                'exact-arithmetic (Q) instance of the executable model of var_opt_sketch / var_opt_union, for EVERY history of updates, '
+                'serialize/deserialize round trips and resets, every k >= 1, every sequence of random draws (arbitrary, also too short) and '
+                'every decoding of the unit-interval draws: h + r = min(n, k) with an empty M region at rest and n = number of accepted '
+                'updates; sum of H weights + total_wt_r = total input weight; tau never decreases; while n <= k the sketch holds exactly '
+                'the input; every input is accounted for as an H item with its exact weight, an R item or a dropped item, the latter two no '
+                'heavier than tau, hence every input heavier than tau is in H with its exact weight and samples come from the input; in '
+                'estimation mode H is a binary min-heap with no item lighter than tau; update never throws (refused iff w < 0, ignored iff '
+                'w = 0); estimate_subset_sum returns for every predicate with 0 <= estimate <= total and estimate = total for the '
+                'always-true predicate; a round trip succeeds and returns the same regions. Union, for EVERY union history (update(sketch) '
+                'with sketches of any k and fill state in any order and repetition, serialize/deserialize of the union, reset) and any '
+                'max_k: update(sketch) never throws and adds the sketch\'s n and total input weight; resolve_tau makes the outer tau the '
+                'maximum tau of the estimation-mode sketches seen; the union round trip keeps n, weight, max_k; whatever get_result '
+                'returns (all three coercers: simple copy, mark-moving, migrate-by-decreasing-k incl. decrease_k_by_1) has exactly the '
+                'combined n and total weight, k <= max_k, at most k samples, empty M region, every sample item is an input item and '
+                'every H sample is an input (item, weight) pair with its exact weight (num_marks_in_h_ proved to count the marked H '
+                'slots through every operation). Regression_varopt.v keeps '
+                'the two repaired defects as refuted theorems about the old code. The binary64 instance of the same model text is extracted '
+                'and compared bit for bit with the C++ (ASan/UBSan build, all random draws replayed through the hook) on generated scripts; '
+                'the property predicates (counts, conservation, heavy items kept exactly, samples from the input, subset-sum total, '
+                'lb <= estimate <= ub, union n / weight / k) are evaluated on the implementation\'s outputs against the model\'s ghost log.'),
+    level_note=('Trusted: Coq kernel; hand-written model validated only by the correspondence runs; random draws taken from the hook log; '
+                'binary64 agreement of Coq PrimFloat/OCaml with g++ -ffp-contract=off. Theorems are over exact rationals, not binary64: in '
+                'binary64 update()/union update()/get_result() can throw std::logic_error when rounding leaves the lightest H item one ulp '
+                'below tau (known findings update_throws_in_estimation_mode, union_update_throws_rounding, union_result_throws_rounding; '
+                'Regression_varopt.v shows such a history passing in exact arithmetic). Not proved: that get_result always returns '
+                '(conservation etc. are proved for whatever it returns), the heavy-item clause for union results (inputs heavier than the '
+                'result\'s tau are kept; oracle only), unbiasedness (statistical, not claimed), lower/upper bounds '
+                '(libm; only lb <= estimate <= ub checked on the implementation). "At most the smallest effective k items" is proved and '
+                'checked as k <= max_k and samples <= k: by design the library can return more samples than the smallest input k (inputs '
+                'k=4 and k=8 give k=7). Serialization is modelled as validity checks + constructor arguments, not bytes. Observations '
+                'outside the property text: estimate_subset_sum reports total_sketch_weight = weight of the matching items (not the total) '
+                'while r = 0; the pseudo-exact coercer returns H in array order without re-heapifying (no observable violation found). '
+                'Requires fixes/16_deserialize_m.patch and fixes/16_union_pseudo_exact_tau.patch in /repo.'),
     design_ref='DESIGN.md section 5 C16')
